@@ -86,16 +86,20 @@ def consts(ctx):
 
 
 def model(ctx):
+    """TLC: the ideal spec satisfies the properties (edges emitted); every deviation is caught by the property it breaks"""
     c = consts(ctx)
-    ideal = ctx.tlc(MODULE, "MC.cfg", files={"MC.cfg": R.cfg_text(c, emit=True, invs=INVS, props=PROPS)}, workers=4,
-                    heap="12g", timeout=1800)
+    small = {"MaxFrames": 1, "MaxReads": 2}
+    jobs = [dict(module=MODULE, name="ideal", workers=4, heap="12g",
+                 cfg=R.cfg_text(c, emit=True, invs=INVS, props=PROPS))]
+    for d in DEVS:
+        jobs.append(dict(module=MODULE, name="dev" + d, workers=1, expect_violation=True,
+                         cfg=R.cfg_text(small, dev=[d], emit=False, invs=INVS, props=PROPS)))
+    res = R.tlc_many(ctx, jobs)
+    ideal = res[0]
     if ideal.violated:
         raise vf.Infra("ideal Stream spec violates %s (specification error)" % ideal.violated)
-    small = {"MaxFrames": 1, "MaxReads": 2}
     caught = {}
-    for d in DEVS:
-        r = ctx.tlc(MODULE, "MCdev.cfg", files={"MCdev.cfg": R.cfg_text(small, dev=[d], emit=False, invs=INVS, props=PROPS)},
-                    expect_violation=True, workers=4)
+    for d, r in zip(DEVS, res[1:]):
         caught[d] = r.violated
         if r.violated != DEV_CAUGHT_BY[d]:
             raise vf.Infra("deviation %s: TLC reported %s, expected a violation of %s (vacuous model?)" % (
@@ -105,13 +109,14 @@ def model(ctx):
 
 def dev_relations(ctx, c):
     """transition relation of the same bounded model with exactly one deviation enabled, per deviation"""
-    out = {}
-    for d in DEVS:
-        out[d] = R.index_relation(R.relation(ctx, MODULE, c, [d], "rel" + d).edges, base_act)
-    return out
+    res = R.tlc_many(ctx, [dict(module=MODULE, name="rel" + d, workers=2, heap="8g", cfg=R.cfg_text(c, dev=[d], emit=True))
+                           for d in DEVS])
+    return {d: R.index_relation(r.edges, base_act) for d, r in zip(DEVS, res)}
 
 
 def replay(ctx, binpath, doc, tag, env=None, nproc=4):
+    # VERIF_CORRUPT=<n>: self-test of the binding - the harness falsifies the expected state of its n-th step
+    env = dict(env or {}, ZZV_CORRUPT=os.environ.get("VERIF_CORRUPT", "0"))
     return R.replay_parallel(ctx, binpath, "^TestZZVStreamReplay$", doc, "stream_" + tag, nproc=nproc, env=env)
 
 
